@@ -207,6 +207,37 @@ def _state_flag_justifies(kv: Any, parse: ast.AST, sub: ast.Subscript) -> bool:
     return passthrough
 
 
+def fold_slots(v: ast.AST) -> Optional[List[str]]:
+    if isinstance(v, (ast.Tuple, ast.List)) and all(isinstance(e, ast.Constant) and isinstance(e.value, str) for e in v.elts):
+        return [e.value for e in v.elts]
+    return None
+
+
+def _following(mod: Any, stmt: ast.stmt, fn: ast.AST) -> List[ast.stmt]:
+    """statements that run after `stmt` on the fall-through path: the rest of its block, then what follows the enclosing if/try/with blocks -
+    up to the enclosing loop or function; stops at a statement that leaves the block"""
+    out: List[ast.stmt] = []
+    cur: ast.AST = stmt
+    while True:
+        par = mod.parents.get(cur)
+        if par is None:
+            break
+        blk = None
+        for fld in ('body', 'orelse', 'finalbody', 'handlers'):
+            b_ = getattr(par, fld, None)
+            if isinstance(b_, list) and cur in b_:
+                blk = b_
+        if blk is not None:
+            for st in blk[blk.index(cur) + 1:]:
+                out.append(st)
+                if isinstance(st, (ast.Return, ast.Raise, ast.Continue, ast.Break)):
+                    return out
+        if par is fn or isinstance(par, (ast.For, ast.While, ast.FunctionDef, ast.AsyncFunctionDef)):
+            break
+        cur = par
+    return out
+
+
 def run(ctx: Any, prog: Program) -> None:
     tk = prog.module('tokenizer')
     kv = prog.module('keyvalues')
@@ -292,6 +323,28 @@ def run(ctx: Any, prog: Program) -> None:
             if isinstance(n, ast.Assign) and any(dotted(t) == 'self._char_index' for t in n.targets):
                 ok = isinstance(n.value, ast.UnaryOp) and isinstance(n.value.op, ast.USub) and isinstance(n.value.operand, ast.Constant) and n.value.operand.value == 1
                 ctx.check('C03.K1', ok, tk, n, f'__init__ starts the cursor at `{U(n.value)[:50]}`: it must be -1 for every kind of input (a data-dependent start skips characters for a str but not for the same text in chunks)', text='__init__: cursor starts at -1')
+
+        # ... and the text is handed to the cursor as it was given: the data parameter is never reassigned, `_cur_chunk` starts as that parameter or
+        # as a constant, and `_chunk_iter` as iter(<data>) / iter(()) - a clean-up applied to one kind of input (a str) and not to the same text
+        # arriving in chunks makes the tokens depend on how the text is delivered
+        dparam = next((a.arg for a in init_fn.args.args[1:2]), None)
+        if dparam is None:
+            ctx.shape('C03.K1', False, tk, init_fn, 'Tokenizer.__init__ has no data parameter', text='__init__: data handed on unchanged')
+        else:
+            re_ = [n for n in ast.walk(init_fn) if isinstance(n, ast.Name) and n.id == dparam and isinstance(n.ctx, (ast.Store, ast.Del))]
+            ctx.check('C03.K1', not re_, tk, tk.parents.get(re_[0]) if re_ else init_fn, f'__init__ rewrites its `{dparam}` argument (`{U(tk.parents.get(re_[0]))[:70] if re_ else ""}`) before handing it to the cursor: what the token '
+                      'functions see then depends on whether the text came as one str or as chunks', text='__init__: data not rewritten')
+            for n in ast.walk(init_fn):
+                if isinstance(n, ast.Assign) and any(dotted(t) == 'self._cur_chunk' for t in n.targets):
+                    ok = (isinstance(n.value, ast.Name) and n.value.id == dparam) or (isinstance(n.value, ast.Constant) and n.value.value == '')
+                    ctx.check('C03.K1', ok, tk, n, f'__init__ starts the cursor on `{U(n.value)[:60]}` instead of the text it was given (or the empty chunk)', text=f'__init__: first chunk `{U(n.value)[:30]}`')
+                if isinstance(n, ast.Assign) and any(dotted(t) == 'self._chunk_iter' for t in n.targets):
+                    v_ = n.value
+                    ok = isinstance(v_, ast.Call) and dotted(v_.func) == 'iter' and len(v_.args) == 1 and ((isinstance(v_.args[0], ast.Name) and v_.args[0].id == dparam) or (isinstance(v_.args[0], ast.Tuple) and not v_.args[0].elts))
+                    if ok:
+                        ctx.check('C03.K1', True, tk, n, '', text=f'__init__: chunk source `{U(v_)[:30]}`')
+                    else:
+                        ctx.shape('C03.K1', False, tk, n, f'chunk source `{U(v_)[:60]}` is not iter(<data>) / iter(())', text=f'__init__: chunk source `{U(v_)[:30]}`')
 
     # ---- K9: acyclic call graph among the tokenizer's own methods -------------------------------------------
     graph: Dict[str, Set[str]] = {}
@@ -436,6 +489,39 @@ def run(ctx: Any, prog: Program) -> None:
             ok = isinstance(o.value, tuple) and isinstance(o.value[0], EnumMember) and o.value[0].name == 'COMMENT'
             if not ok:
                 ctx.check('C03.K7', False, tk, hc, f'_handle_comment returns a non-COMMENT token: {o.value!r}', text='comment stub faithful')
+    # ---- K5: objects made without __init__ ---------------------------------------------------------------------------------------------
+    # `Keyvalues.__new__(Keyvalues)` skips the constructor; the class has __slots__, so a slot that is not assigned afterwards does not exist
+    # and reading it (the unclosed-block error lists `kv.line_num` of every open block) raises AttributeError instead of the documented error
+    kvm = prog.module('keyvalues')
+    n_new = 0
+    for cname_, cnode in [(c.name, c) for c in kvm.tree.body if isinstance(c, ast.ClassDef)]:
+        slots_ = next((fold_slots(st.value) for st in cnode.body if isinstance(st, ast.Assign) and any(isinstance(t, ast.Name) and t.id == '__slots__' for t in st.targets)), None)
+        if not slots_:
+            continue
+        setters: Dict[str, Set[str]] = {}
+        for m_ in cnode.body:
+            if isinstance(m_, ast.FunctionDef) and any(isinstance(d, ast.Attribute) and d.attr == 'setter' for d in m_.decorator_list):
+                setters[m_.name] = {t.attr for a in ast.walk(m_) if isinstance(a, ast.Assign) for t in a.targets if isinstance(t, ast.Attribute) and isinstance(t.value, ast.Name) and t.value.id == m_.args.args[0].arg}
+        for q_, fl_ in kvm.all_funcs().items():
+            for f_ in fl_:
+                for a in walk_no_nested(f_):
+                    if not (isinstance(a, ast.Assign) and isinstance(a.value, ast.Call) and isinstance(a.value.func, ast.Attribute) and a.value.func.attr == '__new__'
+                            and dotted(a.value.func.value) in (cname_, 'cls') and (dotted(a.value.func.value) == cname_ or q_.startswith(cname_ + '.'))):
+                        continue
+                    names_ = {t.id for t in a.targets if isinstance(t, ast.Name)}
+                    if not names_:
+                        continue
+                    n_new += 1
+                    got: Set[str] = set()
+                    for st in _following(kvm, a, f_):
+                        for x in ast.walk(st):
+                            if isinstance(x, ast.Attribute) and isinstance(x.ctx, ast.Store) and isinstance(x.value, ast.Name) and x.value.id in names_:
+                                got |= setters.get(x.attr, set()) | {x.attr}
+                    missing = sorted(set(slots_) - got)
+                    ctx.check('C03.K5', not missing, kvm, a, f'{q_} creates a {cname_} with __new__ and never assigns the slot(s) {missing}: the object is used like any other (the end-of-text error reads '
+                              '`line_num` of every open block), and reading an unset slot raises AttributeError instead of the documented error', func=q_, text=f'{q_}: slots of the object made by __new__')
+    ctx.shape('C03.K5', n_new >= 3, kvm, kvm.tree, f'{n_new} `__new__` constructions of slotted classes found in keyvalues.py (3 confirmed by hand)', text='__new__ constructions')
+
     # ---- K5 static part ---------------------------------------------------------------------------
     for qual in ('Tokenizer._get_token', 'Tokenizer._handle_comment', 'Tokenizer._handle_string'):
         fn = fnodes[qual]
@@ -641,6 +727,8 @@ def _guarded_by_nonstr(mod: Any, n: ast.AST) -> bool:
 
 
 MUTANTS = [
+    {'id': 'skipped_block_without_line_num', 'file': 'keyvalues.py', 'find': "                    cur_block.line_num = None  # Not used, but make sure to keep it valid.\n", 'replace': "", 'expect': 'C03.K5'},
+    {'id': 'init_collapses_crlf_for_str_only', 'file': 'tokenizer.py', 'find': "        if isinstance(data, str):\n            self._cur_chunk = data\n", 'replace': "        if isinstance(data, str):\n            self._cur_chunk = data.replace('\\r\\n', '\\n')\n", 'expect': 'C03.K1'},
     {'id': 'expect_error_template_from_token_text', 'file': 'tokenizer.py', 'find': "            raise self.error(\n                'Expected {}, but got {}!',\n                token,\n                next_token,\n            )", 'replace': "            message = 'Expected {}, but got {}'\n            if next_token.has_value:\n                message += f' = \"{value}\"'\n            raise self.error(message + '!', token, next_token)", 'expect': 'C03.K5'},
     {'id': 'ok_expect_error_value_as_argument', 'file': 'tokenizer.py', 'find': "            raise self.error(\n                'Expected {}, but got {}!',\n                token,\n                next_token,\n            )", 'replace': "            raise self.error('Expected {}, but got {} = \"{}\"!', token, next_token, value)", 'expect': None},
     {'id': 'cython_refill_strips_bom', 'file': '_tokenizer.pyx', 'find': "            if len(<str>chunk_obj) > 0:\n                self.cur_chunk = chunk_obj", 'replace': "            if self.line_num == 1 and (<str>chunk_obj).startswith('\\uFEFF'):\n                chunk_obj = (<str>chunk_obj)[1:]\n            if len(<str>chunk_obj) > 0:\n                self.cur_chunk = chunk_obj", 'expect': 'C03.K8'},
